@@ -20,4 +20,4 @@ behind V::BYTES <= array length. R10.1/R10.3/R10.6 safe-code index discipline of
 NOT_DECIDED = """Absence of panics in general (arithmetic overflow in get_match's `at - len` and slice indexing inside the automata rest on table validity, i.e. automaton data); anything about the aarch64 build. With len >= L + k - 1 (entry assertion) the window premises imply in-bounds loads; that implication is the written argument, not a machine-checked proof."""
 CLAIM = """Static decision of every premise of the bounds argument for the raw-pointer code: a complete classified inventory of unsafe operations, entry assertions and CPU-feature gates, window arithmetic of all eight searchers, the width table of the raw comparison, and the unchecked-index provenance. Tests cannot observe an out-of-bounds read; these premises hold for every haystack length and alignment."""
 NOTE = """Trusted: rustc MIR construction, the fact extractor (callee safety and generic arguments), SIMD intrinsic semantics. General panic freedom is not decided."""
-TECHNIQUE = "static analysis: unsafe-operation inventory with coverage table, dominance of guards over loads, reaching definitions and width tables over rustc MIR"
+TECHNIQUE = "static analysis: unsafe-operation inventory with coverage table, read widths / offsets of the raw comparison tabulated per length on loop-iteration summaries, dominance of guards over loads over rustc MIR"
